@@ -5,16 +5,18 @@ From Coq Require Import Lia.
 From ZenoV Require Import Pause.PauseLts Pause.PauseBase.
 
 (* a running worker whose PauseCh is empty: it will not acknowledge anything *)
-Definition idle (x : wst) : Prop := w_pc x = WRun /\ w_tok x = false.
+(* in the main select or handling an item: will come (back) to the main select by itself *)
+Notation running x := (w_pc x = WRun \/ w_pc x = WBusy).
+Definition idle (x : wst) : Prop := running x /\ w_tok x = false.
 (* a worker that owes an acknowledgement: token queued, or already blocked on ResumeCh *)
-Definition pending (x : wst) : Prop := (w_pc x = WRun /\ w_tok x = true) \/ w_pc x = WAck.
+Definition pending (x : wst) : Prop := (running x /\ w_tok x = true) \/ w_pc x = WAck.
 
 Definition wwf (x : wst) : Prop :=
   w_pclosed x = false /\
   w_pc x <> WCloseP /\
-  (w_sub x = true <-> (w_pc x = WRun \/ w_pc x = WAck \/ w_pc x = WDel)) /\
+  (w_sub x = true <-> (running x \/ w_pc x = WAck \/ w_pc x = WDel)) /\
   (w_rclosed x = true <-> w_pc x = WGone) /\
-  (w_stop x = false -> w_pc x = WRun \/ w_pc x = WAck) /\
+  (w_stop x = false -> running x \/ w_pc x = WAck) /\
   (w_pc x = WAck -> w_tok x = false).
 
 Definition active (x : cpc) : bool :=
@@ -63,7 +65,7 @@ Proof.
   - intros w _. unfold wwf, w0. cbn. intuition (try discriminate; auto).
   - intros c _. split; discriminate.
   - discriminate.
-  - unfold phase. cbn. intros w _ [[_ H]|H]; discriminate.
+  - unfold phase, pending. cbn. intros w _ [[_ H]|H]; discriminate.
 Qed.
 
 (* ---- worker-only updates ---- *)
@@ -177,7 +179,7 @@ Qed.
 Lemma free_none s : free s = true -> holder s = None.
 Proof. unfold free. destruct (holder s); [discriminate | reflexivity]. Qed.
 
-Lemma wwf_sub_running x : wwf x -> (w_pc x = WRun \/ w_pc x = WAck) -> w_sub x = true.
+Lemma wwf_sub_running x : wwf x -> (running x \/ w_pc x = WAck) -> w_sub x = true.
 Proof. intros [_ [_ [Hs _]]] Hpc. apply Hs. tauto. Qed.
 
 Lemma pending_sub x : wwf x -> pending x -> w_sub x = true.
@@ -217,9 +219,9 @@ Proof.
     + unfold idle, wset_stop. cbn. tauto.
     + unfold pending, wset_stop. cbn. tauto.
   - (* LWork *)
-    dstep Hstep; inversion Hstep; subst; clear Hstep. assumption.
+    dstep Hstep; inversion Hstep; subst; clear Hstep. wstep_inv.
   - (* LPauseBegin *)
-    cbn [fixed v_mutex lock_free take negb orb] in Hstep.
+    cbn [fixed v_pmutex plock_free ptake negb orb] in Hstep.
     dstep Hstep; inversion Hstep; subst; clear Hstep; apply Nat.ltb_lt in Heqb.
     + apply inv_set_c_inactive; [assumption | assumption | rewrite Heqc0; reflexivity | reflexivity].
     + pose proof (free_none s Heqb0) as Hfree.
@@ -277,7 +279,7 @@ Proof.
            ++ apply Nat.eqb_eq in E. subst w'. contradiction.
            ++ apply (H2 w'); [right; assumption | assumption].
   - (* LPauseEnd *)
-    cbn [fixed v_mutex release] in Hstep.
+    cbn [fixed v_pmutex prelease] in Hstep.
     dstep Hstep; inversion Hstep; subst; clear Hstep; apply Nat.ltb_lt in Heqb.
     assert (Hhold : holder s = Some (OC c))
       by (apply (inv_hold s HI c Heqb); rewrite Heqc0; reflexivity).
@@ -380,7 +382,7 @@ Proof.
     + intros w' Hw' Hpe. destruct (H4 w' Hw' Hpe) as [Hin|Hin]; [left; assumption|].
       right. apply rem_In. split; [assumption|]. intros ->.
       unfold wwf in Hwx. assert (Hg : w_pc (wk s w) = WGone) by (apply Hwx; assumption).
-      unfold pending in Hpe. rewrite Hg in Hpe. destruct Hpe as [[Hd _]|Hd]; discriminate.
+      unfold pending in Hpe. rewrite Hg in Hpe. destruct Hpe as [[[Hd|Hd] _]|Hd]; discriminate.
   - (* LResumeEnd *)
     cbn [fixed v_mutex release] in Hstep.
     dstep Hstep; inversion Hstep; subst; clear Hstep; apply Nat.ltb_lt in Heqb.
@@ -406,6 +408,10 @@ Proof.
   - (* LUnsubCloseR *)
     cbn [fixed v_unsubmutex] in Hstep.
     dstep Hstep; inversion Hstep; subst; clear Hstep. wstep_inv.
+  - (* LDone *)
+    dstep Hstep; inversion Hstep; subst; clear Hstep. wstep_inv.
+  - (* LBusyStop *)
+    dstep Hstep; inversion Hstep; subst; clear Hstep. wstep_inv.
 Qed.
 
 Lemma run_inv ls : forall s s', Inv s -> run fixed s ls = Some s' -> Inv s'.
@@ -424,8 +430,8 @@ Proof. apply run_inv. apply inv_init. Qed.
    the pause flag says ---- *)
 Ltac contra_q Hq l :=
   let Hn := fresh "Hn" in
-  pose proof (Hq l eq_refl) as Hn; unfold step, lock_free in Hn;
-  cbn [fixed v_mutex v_early v_ackctx v_closep v_unsubmutex negb orb andb] in Hn;
+  pose proof (Hq l eq_refl) as Hn; unfold step, lock_free, plock_free in Hn;
+  cbn [fixed v_mutex v_pmutex v_early v_ackctx v_closep v_unsubmutex negb orb andb] in Hn;
   repeat match goal with
          | H : panic _ = _ |- _ => rewrite H in Hn
          | H : (_ <? _) = true |- _ => rewrite H in Hn
@@ -436,7 +442,7 @@ Ltac contra_q Hq l :=
          | H : w_rclosed _ = _ |- _ => rewrite H in Hn
          | H : free _ = _ |- _ => rewrite H in Hn
          end;
-  cbn [fixed v_mutex v_early v_ackctx v_closep v_unsubmutex lock_free negb orb andb memb existsb] in Hn;
+  cbn [fixed v_mutex v_pmutex v_early v_ackctx v_closep v_unsubmutex lock_free plock_free negb orb andb memb existsb] in Hn;
   rewrite ?Nat.eqb_refl in Hn; cbn [orb andb] in Hn;
   repeat match type of Hn with
          | context [if ?b then _ else _] => destruct b
@@ -464,7 +470,8 @@ Proof.
       { intros Hi. destruct (H3 w Hw Hi) as [_ Hb]. apply Hb. left. reflexivity. }
       destruct (w_pc (wk s w)) eqn:Hpc.
       * destruct (w_tok (wk s w)) eqn:Htok; [contra_q Hq (LTakePause w)|].
-        apply Hni. split; assumption.
+        apply Hni. split; [left; assumption | assumption].
+      * contra_q Hq (LDone w).
       * contra_q Hq (LHandshake c w).
       * contra_q Hq (LUnsubDelete w).
       * unfold wwf in Hwx. tauto.
@@ -499,19 +506,24 @@ Proof.
     destruct (w_stop (wk s w)) eqn:Hstop.
     + destruct (w_pc (wk s w)) eqn:Hpc; cbn [wpc_eqb]; try reflexivity.
       * contra_q Hq (LSeeStop w).
+      * contra_q Hq (LDone w).
       * contra_q Hq (LAckStop w).
       * contra_q Hq (LUnsubDelete w).
       * unfold wwf in Hwx. tauto.
       * contra_q Hq (LUnsubCloseR w).
-    + assert (Hrun : w_pc (wk s w) = WRun \/ w_pc (wk s w) = WAck)
+    + assert (Hrun : running (wk s w) \/ w_pc (wk s w) = WAck)
         by (unfold wwf in Hwx; tauto).
+      assert (Hnb : w_pc (wk s w) <> WBusy).
+      { intros Hpc. contra_q Hq (LDone w). }
       destruct (paused s) eqn:Hpa.
-      * destruct Hrun as [Hpc|Hpc]; rewrite Hpc; cbn [wpc_eqb]; [|reflexivity].
+      * destruct Hrun as [[Hpc|Hpc]|Hpc]; [|contradiction|rewrite Hpc; reflexivity].
+        rewrite Hpc. cbn [wpc_eqb].
         destruct (w_tok (wk s w)) eqn:Htok; [contra_q Hq (LTakePause w)|].
-        exfalso. apply (Hph w Hw). split; assumption.
-      * destruct Hrun as [Hpc|Hpc]; rewrite Hpc; cbn [wpc_eqb].
-        -- destruct (w_tok (wk s w)) eqn:Htok; [|reflexivity].
-           exfalso. apply (Hph w Hw). left. split; assumption.
+        exfalso. apply (Hph w Hw). split; [left; assumption | assumption].
+      * destruct Hrun as [[Hpc|Hpc]|Hpc]; [|contradiction|].
+        -- rewrite Hpc. cbn [wpc_eqb].
+           destruct (w_tok (wk s w)) eqn:Htok; [|reflexivity].
+           exfalso. apply (Hph w Hw). left. split; [left; assumption | assumption].
         -- exfalso. apply (Hph w Hw). right. assumption.
 Qed.
 
@@ -589,7 +601,7 @@ Proof.
   split; [assumption|]. split; [|tauto].
   destruct (w_sub (wk s' w)) eqn:E; [|reflexivity].
   exfalso. destruct Hwx as [_ [_ [Hs _]]].
-  destruct (proj1 Hs eq_refl) as [H|[H|H]]; discriminate H.
+  destruct (proj1 Hs eq_refl) as [[H|H]|[H|H]]; discriminate H.
 Qed.
 
 (* a label that lets worker w leave the acknowledging send *)
@@ -608,8 +620,8 @@ Proof.
     assert (Hkeep : w_pc (wk s1 w) = WAck /\ l <> LWork w).
     { unfold step in Hstep. destruct (panic s); [discriminate|].
       destruct l; dstep Hstep; inversion Hstep; subst; clear Hstep;
-        cbn [wk set_w set_c set_paused set_holder set_panic take release];
-        unfold take, release;
+        cbn [wk set_w set_c set_paused set_holder set_panic take release ptake prelease];
+        unfold take, release, ptake, prelease;
         repeat match goal with |- context [if ?b then _ else _] => destruct b end;
         cbn [wk set_w set_c set_paused set_holder set_panic];
         (split; [|try discriminate]);
@@ -671,7 +683,7 @@ Proof.
   assert (Hfp : holder s' = None /\ paused s' = true).
   { unfold step in Hstep. destruct (panic s); [discriminate|].
     destruct Hl as [-> | ->];
-      cbn [fixed v_mutex v_early lock_free take release negb orb andb] in Hstep;
+      cbn [fixed v_mutex v_pmutex v_early lock_free take release plock_free ptake prelease negb orb andb] in Hstep;
       dstep Hstep; inversion Hstep; subst; clear Hstep;
       cbn [holder paused ct set_c set_paused set_holder] in *.
     - split; [reflexivity|].
@@ -697,7 +709,7 @@ Proof.
   assert (Hfp : holder s' = None /\ paused s' = false).
   { unfold step in Hstep. destruct (panic s); [discriminate|].
     destruct Hl as [-> | ->];
-      cbn [fixed v_mutex v_early lock_free take release negb orb andb] in Hstep;
+      cbn [fixed v_mutex v_pmutex v_early lock_free take release plock_free ptake prelease negb orb andb] in Hstep;
       dstep Hstep; inversion Hstep; subst; clear Hstep;
       cbn [holder paused ct set_c set_paused set_holder] in *.
     - split; reflexivity.
@@ -790,11 +802,11 @@ Proof.
 Qed.
 
 (* each of the three repairs is needed: leave one out and the same schedules still get stuck *)
-Lemma without_ack_select_refuted : stuck (V false true true false false) 1 1 w_stop_while_paused.
+Lemma without_ack_select_refuted : stuck (V false true true true false false) 1 1 w_stop_while_paused.
 Proof. apply refutes_sound. vm_compute. reflexivity. Qed.
-Lemma without_resume_guard_refuted : stuck (V true false false false false) 1 1 w_unmatched_resume.
+Lemma without_resume_guard_refuted : stuck (V true false false false false false) 1 1 w_unmatched_resume.
 Proof. apply refutes_sound. vm_compute. reflexivity. Qed.
-Lemma with_pausech_close_refuted : stuck (V true true true true false) 1 1 w_unsubscribe_race.
+Lemma with_pausech_close_refuted : stuck (V true true true true true false) 1 1 w_unsubscribe_race.
 Proof. apply refutes_sound. vm_compute. reflexivity. Qed.
 
 (* repair candidates that the model rejects *)
@@ -806,14 +818,14 @@ Definition w_two_resumes : list label :=
    LResumeVisit 1 0; LResumeVisit 1 1; LResumeVisit 2 0; LResumeVisit 2 1;
    LHandshake 1 0; LHandshake 2 1].
 Lemma early_return_without_mutex_candidate_refuted :
-  stuck (V true false true false false) 2 3 w_two_resumes.
+  stuck (V true false false true false false) 2 3 w_two_resumes.
 Proof. apply refutes_sound. vm_compute. reflexivity. Qed.
 
 (* (b) Unsubscribe takes the mutex as well (to protect close(PauseCh)): Resume holds it while
    waiting for the very worker that is leaving. *)
 Definition w_unsub_mutex : list label :=
   full_pause 0 [0] ++ [LCall 0 KResume; LResumeBegin 0; LResumeVisit 0 0; LStop 0; LAckStop 0].
-Lemma unsubscribe_mutex_candidate_refuted : stuck (V true true true true true) 1 1 w_unsub_mutex.
+Lemma unsubscribe_mutex_candidate_refuted : stuck (V true true true true true true) 1 1 w_unsub_mutex.
 Proof. apply refutes_sound. vm_compute. reflexivity. Qed.
 
 Lemma orig_refuted_lemma :
@@ -828,11 +840,11 @@ Proof.
 Qed.
 
 Lemma repairs_needed_lemma :
-  stuck (V false true true false false) 1 1 w_stop_while_paused /\
-  stuck (V true false false false false) 1 1 w_unmatched_resume /\
-  stuck (V true true true true false) 1 1 w_unsubscribe_race /\
-  stuck (V true false true false false) 2 3 w_two_resumes /\
-  stuck (V true true true true true) 1 1 w_unsub_mutex.
+  stuck (V false true true true false false) 1 1 w_stop_while_paused /\
+  stuck (V true false false false false false) 1 1 w_unmatched_resume /\
+  stuck (V true true true true true false) 1 1 w_unsubscribe_race /\
+  stuck (V true false false true false false) 2 3 w_two_resumes /\
+  stuck (V true true true true true true) 1 1 w_unsub_mutex.
 Proof.
   exact (conj without_ack_select_refuted (conj without_resume_guard_refuted
         (conj with_pausech_close_refuted (conj early_return_without_mutex_candidate_refuted
@@ -877,6 +889,210 @@ Example nonvacuous_calls_complete :
           (full_pause 0 [0; 1] ++ [LStop 0; LCall 1 KResume; LCall 0 KResume; LCall 2 KPause]) with
   | Some s => negb (final_ok_b s) && final_ok_b (quiesce fixed (S (mu s)) s)
               && wpc_eqb (w_pc (wk (quiesce fixed (S (mu s)) s) 0)) WGone
+  | None => false
+  end = true.
+Proof. vm_compute. reflexivity. Qed.
+
+(* =====================  a Pause invoked while no Resume is waiting to start sticks  ============ *)
+(* [J]: no Resume call is before its first step, and either some Pause call is before its first
+   step or the manager is paused with no Resume call in progress at all. *)
+Definition is_resume_pc (x : cpc) : bool :=
+  match x with CRStart | CRRange _ _ => true | _ => false end.
+
+Definition J (s : state) : Prop :=
+  (forall c, c < nc s -> ct s c <> CRStart) /\
+  ((exists b, b < nc s /\ ct s b = CPStart) \/
+   (paused s = true /\ forall c, c < nc s -> is_resume_pc (ct s c) = false)).
+
+Lemma free_no_resume s : Inv s -> holder s = None ->
+  (forall c, c < nc s -> ct s c <> CRStart) -> forall c, c < nc s -> is_resume_pc (ct s c) = false.
+Proof.
+  intros HI Hfree Hns c Hc. pose proof (inv_hold s HI c Hc) as Hact. rewrite Hfree in Hact.
+  specialize (Hns c Hc).
+  destruct (ct s c); cbn [is_resume_pc active] in *; try reflexivity; try congruence.
+  exfalso. assert (Hd : @None owner = Some (OC c)) by (apply Hact; reflexivity). discriminate Hd.
+Qed.
+
+Lemma J_set_c s c x :
+  J s -> c < nc s -> x <> CRStart -> ct s c <> CPStart ->
+  (is_resume_pc x = true -> is_resume_pc (ct s c) = true) -> J (set_c s c x).
+Proof.
+  intros [Hns Hd] Hc Hx Hnp Hres. split; cbn [nc ct paused set_c].
+  - intros c' Hc'. unfold upd. destruct (c' =? c); [assumption | apply Hns; assumption].
+  - destruct Hd as [[b [Hb Hbs]]|[Hpa Hnr]].
+    + left. exists b. split; [assumption|]. unfold upd. destruct (Nat.eqb_spec b c) as [->|Hne];
+        [contradiction | assumption].
+    + right. split; [assumption|]. intros c' Hc'. unfold upd.
+      destruct (Nat.eqb_spec c' c) as [->|Hne]; [|apply Hnr; assumption].
+      destruct (is_resume_pc x) eqn:E; [|reflexivity].
+      rewrite <- (Hnr c Hc). symmetry. apply Hres. reflexivity.
+Qed.
+
+Lemma J_step s l s' :
+  Inv s -> J s -> step fixed s l = Some s' -> (forall c, l <> LCall c KResume) -> J s'.
+Proof.
+  intros HI HJ Hstep Hnr. pose proof HJ as [Hns Hd]. unfold step in Hstep.
+  destruct (panic s) eqn:Hpanic; [discriminate|].
+  destruct l;
+    cbn [fixed v_mutex v_pmutex v_early v_unsubmutex v_closep lock_free take release plock_free ptake prelease negb orb andb] in Hstep;
+    dstep Hstep; inversion Hstep; subst; clear Hstep;
+    try exact HJ;
+    try (exfalso; apply (Hnr c); reflexivity);
+    try (apply Nat.ltb_lt in Heqb).
+  - (* LCall c KPause *)
+    split; cbn [nc ct paused set_c].
+    + intros c' Hc'. unfold upd. destruct (c' =? c); [discriminate | apply Hns; assumption].
+    + left. exists c. split; [assumption | apply upd_same].
+  - (* LPauseBegin, already paused: returns *)
+    pose proof (free_no_resume s HI (free_none s Heqb0) Hns) as Hnores.
+    split; cbn [nc ct paused set_c].
+    + intros c' Hc'. unfold upd. destruct (c' =? c); [discriminate | apply Hns; assumption].
+    + right. split; [assumption|]. intros c' Hc'. unfold upd.
+      destruct (c' =? c); [reflexivity | apply Hnores; assumption].
+  - (* LPauseBegin, pauses *)
+    pose proof (free_no_resume s HI (free_none s Heqb0) Hns) as Hnores.
+    split; cbn [nc ct paused set_c set_paused set_holder].
+    + intros c' Hc'. unfold upd. destruct (c' =? c); [discriminate | apply Hns; assumption].
+    + right. split; [reflexivity|]. intros c' Hc'. unfold upd.
+      destruct (c' =? c); [reflexivity | apply Hnores; assumption].
+  - apply J_set_c; try assumption; try discriminate; rewrite Heqc0; discriminate.
+  - apply J_set_c; try assumption; try discriminate; rewrite Heqc0; discriminate.
+  - (* LPauseSend *)
+    assert (HJ' : J (set_w s x (wset_tok (wk s x) true))) by exact HJ.
+    apply J_set_c; try assumption; try discriminate; cbn [ct set_w]; rewrite Heqc0; discriminate.
+  - (* LPauseEnd *)
+    assert (HJ' : J (set_c s c CIdle)).
+    { apply J_set_c; try assumption; try discriminate; rewrite Heqc0; discriminate. }
+    exact HJ'.
+  - (* LResumeBegin: there is no Resume before its first step *)
+    exfalso. apply (Hns c Heqb). assumption.
+  - exfalso. apply (Hns c Heqb). assumption.
+  - apply J_set_c; try assumption; try discriminate; rewrite Heqc0; try discriminate; reflexivity.
+  - apply J_set_c; try assumption; try discriminate; rewrite Heqc0; try discriminate; reflexivity.
+  - (* LHandshake *)
+    assert (HJ' : J (set_w s w (wset_pc (wk s w) WRun))) by exact HJ.
+    apply J_set_c; try assumption; try discriminate; cbn [ct set_w]; rewrite Heqc0; try discriminate; reflexivity.
+  - apply J_set_c; try assumption; try discriminate; rewrite Heqc0; try discriminate; reflexivity.
+  - (* LResumeEnd *)
+    destruct Hd as [[b [Hb Hbs]]|[Hpa Hnores]].
+    + split; cbn [nc ct paused set_c set_paused set_holder].
+      * intros c' Hc'. unfold upd. destruct (c' =? c); [discriminate | apply Hns; assumption].
+      * left. exists b. split; [assumption|]. unfold upd.
+        destruct (Nat.eqb_spec b c) as [->|Hne]; [congruence | assumption].
+    + specialize (Hnores c Heqb). rewrite Heqc0 in Hnores. discriminate.
+Qed.
+
+Lemma J_run ls : forall s s',
+  Inv s -> J s -> run fixed s ls = Some s' ->
+  (forall l c, In l ls -> l <> LCall c KResume) -> Inv s' /\ J s'.
+Proof.
+  induction ls as [|l ls IH]; intros s s' HI HJ Hrun Hnr; cbn [run] in Hrun.
+  - inversion Hrun; subst. split; assumption.
+  - destruct (step fixed s l) as [s1|] eqn:Hstep; [|discriminate].
+    apply (IH s1 s'); try assumption.
+    + eapply step_inv; eassumption.
+    + eapply J_step; try eassumption. intros c. apply Hnr. left. reflexivity.
+    + intros l' c Hin. apply Hnr. right. assumption.
+Qed.
+
+(* pause_sticks: a Pause invoked at a moment when no Resume call is still before its first step
+   (every Resume in progress is already collecting acknowledgements) - and not followed by any new
+   Resume invocation - leaves the manager paused once every call has returned, under every
+   schedule: the Resume calls in flight finish first, then the Pause takes effect. *)
+Lemma pause_sticks_lemma : forall n m ls0 s b s1 ls s',
+  run fixed (init n m) ls0 = Some s ->
+  (forall c, c < nc s -> ct s c <> CRStart) ->
+  step fixed s (LCall b KPause) = Some s1 ->
+  run fixed s1 ls = Some s' ->
+  (forall l c, In l ls -> l <> LCall c KResume) ->
+  (forall c, c < nc s' -> ct s' c = CIdle) ->
+  paused s' = true.
+Proof.
+  intros n m ls0 s b s1 ls s' Hreach Hns Hcall Hrun Hnr Hidle.
+  pose proof (reachable_inv n m ls0 s Hreach) as HI.
+  pose proof (step_inv s _ s1 HI Hcall) as HI1.
+  assert (HJ1 : J s1).
+  { unfold step in Hcall. destruct (panic s); [discriminate|].
+    dstep Hcall; inversion Hcall; subst; clear Hcall. apply Nat.ltb_lt in Heqb0.
+    split; cbn [nc ct paused set_c].
+    - intros c' Hc'. unfold upd. destruct (c' =? b); [discriminate | apply Hns; assumption].
+    - left. exists b. split; [assumption | apply upd_same]. }
+  destruct (J_run ls s1 s' HI1 HJ1 Hrun Hnr) as [_ [_ [[b' [Hb' Hbs]]|[Hpa _]]]]; [|assumption].
+  rewrite (Hidle b' Hb') in Hbs. discriminate.
+Qed.
+
+(* Without the mutex in Pause (Resume keeps it): controller 0's Resume is collecting and still
+   waits for worker 1, which is handling an item with the pause token queued; worker 0 has
+   already been released.  Controller 1's Pause finds isPaused still set, does nothing and
+   returns - with worker 0 running on an empty PauseCh (pause_reaches_all is false); then the
+   Resume finishes and nothing is paused although the last invocation was a Pause. *)
+Definition v_no_pause_mutex : variant := V true true false true false false.
+Definition w_pause_nomutex : list label :=
+  [LWork 1; LCall 0 KPause; LPauseBegin 0; LPauseVisit 0 0; LPauseSend 0; LPauseVisit 0 1;
+   LPauseSend 0; LPauseEnd 0; LTakePause 0;
+   LCall 0 KResume; LResumeBegin 0; LResumeVisit 0 0; LResumeVisit 0 1; LHandshake 0 0;
+   LCall 1 KPause].
+Definition w_pause_nomutex_end : list label :=
+  [LPauseBegin 1; LDone 1; LTakePause 1; LHandshake 0 1; LResumeEnd 0].
+
+Definition pause_nomutex_check : bool :=
+  match run v_no_pause_mutex (init 2 2) w_pause_nomutex with
+  | Some s =>
+      match step v_no_pause_mutex s (LPauseBegin 1) with
+      | Some s' =>
+          negb (is_idle_c (ct s 1)) && is_idle_c (ct s' 1) && paused s' &&
+          wpc_eqb (w_pc (wk s' 0)) WRun && negb (w_tok (wk s' 0)) &&
+          match run v_no_pause_mutex (init 2 2) (w_pause_nomutex ++ w_pause_nomutex_end) with
+          | Some t => quiescent_b v_no_pause_mutex t && is_idle_c (ct t 0) && is_idle_c (ct t 1) &&
+                      negb (paused t) && wpc_eqb (w_pc (wk t 0)) WRun && wpc_eqb (w_pc (wk t 1)) WRun
+          | None => false
+          end
+      | None => false
+      end
+  | None => false
+  end.
+
+Lemma pause_without_mutex_refuted :
+  (exists s s', run v_no_pause_mutex (init 2 2) w_pause_nomutex = Some s /\
+                step v_no_pause_mutex s (LPauseBegin 1) = Some s' /\
+                pause_returns s (LPauseBegin 1) s' /\ paused s' = true /\ idle (wk s' 0)) /\
+  (exists t, run v_no_pause_mutex (init 2 2) (w_pause_nomutex ++ w_pause_nomutex_end) = Some t /\
+             quiescent v_no_pause_mutex t /\ ct t 0 = CIdle /\ ct t 1 = CIdle /\ paused t = false).
+Proof.
+  assert (Hc : pause_nomutex_check = true) by (vm_compute; reflexivity).
+  unfold pause_nomutex_check in Hc.
+  destruct (run v_no_pause_mutex (init 2 2) w_pause_nomutex) as [s|] eqn:Hr1; [|discriminate].
+  destruct (step v_no_pause_mutex s (LPauseBegin 1)) as [s'|] eqn:Hs1; [|discriminate].
+  destruct (run v_no_pause_mutex (init 2 2) (w_pause_nomutex ++ w_pause_nomutex_end)) as [t|] eqn:Hr2.
+  2: { repeat (apply andb_prop in Hc; destruct Hc as [Hc ?]); discriminate. }
+  repeat match type of Hc with _ && _ = true => apply andb_prop in Hc; destruct Hc as [Hc ?] end.
+  repeat match goal with H : _ && _ = true |- _ => apply andb_prop in H; destruct H end.
+  split.
+  - exists s, s'. split; [reflexivity|]. split; [assumption|]. split; [|split; [assumption|split]].
+    + exists 1. split; [right; reflexivity|]. split.
+      * intros Heq. rewrite Heq in *. discriminate.
+      * destruct (ct s' 1); try discriminate; reflexivity.
+    + left. now apply wpc_eqb_eq.
+    + destruct (w_tok (wk s' 0)); [discriminate | reflexivity].
+  - exists t. split; [reflexivity|]. split; [now apply quiescent_b_spec|].
+    split; [destruct (ct t 0); try discriminate; reflexivity|].
+    split; [destruct (ct t 1); try discriminate; reflexivity|].
+    destruct (paused t); [discriminate | reflexivity].
+Qed.
+
+(* the repaired code cannot take that schedule: the Pause waits for the mutex *)
+Example fixed_blocks_pause_during_resume :
+  match run fixed (init 2 2) w_pause_nomutex with
+  | Some s => match step fixed s (LPauseBegin 1) with Some _ => false | None => true end
+  | None => false
+  end = true.
+Proof. vm_compute. reflexivity. Qed.
+
+(* pause_sticks is not vacuous: the same history on the repaired code, run to quiescence *)
+Example nonvacuous_pause_sticks :
+  match run fixed (init 2 2) w_pause_nomutex with
+  | Some s => let t := quiesce fixed (S (mu s)) s in
+              final_ok_b t && paused t && wpc_eqb (w_pc (wk t 0)) WAck && wpc_eqb (w_pc (wk t 1)) WAck
   | None => false
   end = true.
 Proof. vm_compute. reflexivity. Qed.
